@@ -755,6 +755,10 @@ PUMPS = [
     ('nul', '', '\x00', '', 1 << 14),
     ('error-context-long-line', '"test.op"() {a = [', '1, ', '@} : () -> ()', 1 << 15),
     ('error-context-many-lines', '', '"test.op"() : () -> ()\n', '@', 1 << 13),
+    ('value-name-suffix-groups', '%a', '_1', 'x = "test.op"() : () -> i32', 1 << 16),
+    ('value-name-suffix-groups-match', '%a', '_1', ' = "test.op"() : () -> i32', 1 << 16),
+    ('block-name-suffix-groups', '"test.op"() ({\n^a', '_1', 'x:\n}) : () -> ()', 1 << 16),
+    ('block-arg-name-suffix-groups', '"test.op"() ({\n^bb0(%a', '_1', 'x : i32):\n}) : () -> ()', 1 << 16),
 ]
 
 _MIRROR = {'[': ']', '(': ')', '{': '}', '<': '>'}
@@ -831,7 +835,7 @@ def lex_matrix_family(i: int, big: bool):
 
 
 # ------------------------------------------------------------------ literal x type matrix (builtin value construction, tier A)
-LIT_TYPES = ['i1', 'i8', 'i16', 'i32', 'i64', 'si8', 'ui8', 'si64', 'ui64', 'i128', 'ui65', 'i0', 'i7', 'index', 'i1000', 'si4096',
+LIT_TYPES = ['i1', 'i8', 'i16', 'i32', 'i64', 'si8', 'ui8', 'si64', 'ui64', 'i128', 'ui65', 'i0', 'si0', 'ui0', 'ui20000', 'i7', 'index', 'i1000', 'si4096',
              'f16', 'bf16', 'f32', 'f64', 'f80', 'f128', 'tf32', 'f8E4M3FN', 'f8E5M2', 'f8E4M3', 'f8E5M2FNUZ', 'f8E4M3FNUZ',
              'f8E4M3B11FNUZ', 'f8E3M4', 'f8E8M0FNU', 'f6E2M3FN', 'f6E3M2FN', 'f4E2M1FN', 'complex<f32>', 'complex<i32>', 'complex<f16>',
              'complex<i128>', 'none', 'tensor<1xi8>', '!test.type<"x">']
@@ -843,7 +847,9 @@ LIT_VALUES = ['0', '1', '-1', '2', '255', '256', '-129', '2147483648', '18446744
 LIT_CONTEXTS = ['"test.op"() {{a = {v} : {t}}} : () -> ()', '"test.op"() {{a = array<{t}: {v}>}} : () -> ()',
                 '"test.op"() {{a = array<{t}: {v}, {v}>}} : () -> ()', '"test.op"() {{a = dense<{v}> : tensor<2x{t}>}} : () -> ()',
                 '"test.op"() {{a = dense<[{v}, {v}]> : tensor<2x{t}>}} : () -> ()', '"test.op"() {{a = dense<{v}> : vector<{t}>}} : () -> ()',
-                '"test.op"() {{a = dense<[[{v}], [{v}]]> : memref<2x1x{t}>}} : () -> ()', '%0 = "test.op"() : () -> tensor<{v}x{t}>']
+                '"test.op"() {{a = dense<[[{v}], [{v}]]> : memref<2x1x{t}>}} : () -> ()', '%0 = "test.op"() : () -> tensor<{v}x{t}>',
+                '"test.op"() <{{a = {v} : {t}}}> : () -> ()', '"test.op"() {{a = [{v} : {t}, [{v} : {t}]], b = {{c = {v} : {t}}}}} : () -> ()',
+                '%0 = arith.constant {v} : {t}', '"test.op"() {{a = #builtin.int<{v}>, b = #builtin.float_data<{v}>}} : () -> ()']
 
 
 def lit_matrix_size():
@@ -971,3 +977,58 @@ def dag_text(chain: str, use: str, n: int) -> str:
         out.append(c0.format(p=p))
         out.extend(ci.format(p=p, i=i, j=i - 1) for i in range(1, n + 1))
     return ''.join(out) + tpl.format(X=last.format(p='t', n=n), Y=last.format(p='u', n=n)) + '\n'
+
+
+# ------------------------------------------------------------------ affine expression matrix: huge literals x every operator x positions
+AFF_CONSTS = ['0', '1', '-1', '7', '-7', '9007199254740993', '9' * 20, '-' + '9' * 20, '9' * 100, '9' * 400, '-' + '9' * 400, '9' * 1000]
+AFF_OPS = ['+', '-', '*', 'floordiv', 'ceildiv', 'mod']
+AFF_TEMPLATES_2 = ['{A} {O} {B}', '({A}) {O} ({B})', 'd0 + {A} {O} {B}']
+AFF_TEMPLATES_1 = ['d0 {O} {A}', '{A} {O} d0', '(d0 + {A}) {O} {A}', 'd0 * {A} {O} {A}', 's0 {O} {A}', '{A} {O} s0', '{A} {O} {A} {O} {A}',
+                   '-({A}) {O} 2', 'd0 {O} ({A} {O} 3)']
+AFF_CONTEXTS = ['"test.op"() {{a = affine_map<(d0)[s0] -> ({E})>}} : () -> ()',
+                '"test.op"() {{a = affine_set<(d0)[s0] : ({E} >= 0)>}} : () -> ()',
+                '"test.op"() {{a = affine_set<(d0)[s0] : ({E} == 0, d0 >= 0)>}} : () -> ()',
+                '%0 = "test.op"() : () -> memref<2xi32, affine_map<(d0)[s0] -> ({E})>>',
+                '%0 = "test.op"() : () -> index\n%1 = affine.apply affine_map<(d0)[s0] -> ({E})> (%0)[%0]',
+                '%0 = "test.op"() : () -> index\n%1 = affine.min affine_map<(d0)[s0] -> ({E}, 0)> (%0)[%0]',
+                'func.func @f(%n : index) {{\n  affine.for %i = 0 to affine_map<(d0)[s0] -> ({E})>(%n)[%n] {{\n  }}\n  func.return\n}}',
+                'func.func @f(%m : memref<8xf32>, %n : index) {{\n  %v = affine.load %m[{E2}] : memref<8xf32>\n  func.return\n}}']
+
+
+def _aff_exprs():
+    out = []
+    for o in AFF_OPS:
+        for t in AFF_TEMPLATES_2:
+            for a in AFF_CONSTS:
+                for b in AFF_CONSTS:
+                    out.append(t.format(A=a, B=b, O=o))
+        for t in AFF_TEMPLATES_1:
+            for a in AFF_CONSTS:
+                out.append(t.format(A=a, O=o))
+    return out
+
+
+_AFF_CACHE = []
+
+
+def aff_matrix_size():
+    if not _AFF_CACHE:
+        _AFF_CACHE.extend(_aff_exprs())
+    return len(_AFF_CACHE) * len(AFF_CONTEXTS)
+
+
+def aff_matrix_text(i: int) -> str:
+    aff_matrix_size()
+    e = _AFF_CACHE[i % len(_AFF_CACHE)]
+    ctx = AFF_CONTEXTS[i // len(_AFF_CACHE) % len(AFF_CONTEXTS)]
+    return ctx.format(E=e, E2=e.replace('d0', '%n').replace('s0', '%n'))
+
+
+def aff_bounds_texts():
+    """affine.for with literal bounds / steps"""
+    out = []
+    for a in AFF_CONSTS:
+        for b in AFF_CONSTS[:6] + AFF_CONSTS[8:]:
+            out.append(f'func.func @f() {{\n  affine.for %i = {a} to {b} {{\n  }}\n  func.return\n}}')
+            out.append(f'func.func @f() {{\n  affine.for %i = 0 to {a} step {b} {{\n  }}\n  func.return\n}}')
+    return out
